@@ -223,6 +223,12 @@ class Interp:
         m = re.match(r"^core::num::<impl (\w+)>::(MAX|MIN|BITS)$", c)
         if m:
             return m.group(1) if m.group(2) != "BITS" else "u32"
+        tgt = self.resolve_const_item(c)
+        if tgt is not None:
+            hdr = self.prog.lines[self.prog.const_index[tgt]]
+            m = re.match(r"^(?:const|static)(?: mut)? .*?: (.*?) = ", hdr)
+            if m:
+                return m.group(1).strip()
         return "?"
 
     # ------------------------------------------------------------------ places
@@ -369,10 +375,20 @@ class Interp:
         if m:
             w = int_width(m.group(2))
             return mask(int(m.group(1)), w)
+        mf = re.match(r"^(-?[\d.]+(?:[eE][-+]?\d+)?|-?inf|NaN)(f32|f64)$", c)
+        if mf:
+            return float(mf.group(1).replace("NaN", "nan"))
         if c == "true":
             return True
         if c == "false":
             return False
+        if c.startswith("ZeroSized: "):
+            t = c[len("ZeroSized: "):].strip()
+            if t.startswith("{closure@"):
+                return Agg(t, [])
+            if t == "()":
+                return UNIT
+            return Agg(strip_generics(t), [])
         if c == "()" or c.startswith("ZeroSized"):
             return UNIT
         if c.startswith('b"'):
@@ -424,10 +440,12 @@ class Interp:
             ty, idx, vname = ev
             return Enum(ty, idx, vname, [])
         # function item / fn pointer
-        if self.resolve_fn(plain, c) is not None or self.models.lookup(plain) is not None or c.startswith("<"):
+        if c.startswith("<") or self.resolve_fn(plain, c) is not None or self.models.lookup(plain) is not None:
             return FnItem(c)
-        if re.match(r"^[\w:]+$", plain) and plain[0].islower() is False:
+        if re.match(r"^[\w:]+$", plain) and plain.split("::")[-1][0].isupper():
             return Agg(plain, [])   # unit struct
+        if __import__("os").environ.get("MIRSYM_DEBUG"):
+            print("FnItem for const", c)
         return FnItem(c)
 
     def resolve_const_item(self, name):
@@ -436,6 +454,14 @@ class Interp:
         plain = strip_generics(name)
         if plain in self.prog.const_index:
             return plain
+        m = re.match(r"^<(.*?) as (.*?)>::(\w+)::(promoted\[\d+\])$", plain)
+        if m:
+            cand = f"{strip_generics(m.group(2))}::{m.group(3)}::{m.group(4)}"
+            if cand in self.prog.const_index:
+                return cand
+            fn = self.prog.resolve_method("", m.group(1), m.group(3), strip_generics(m.group(2)))
+            if fn is not None and (fn + "::" + m.group(4)) in self.prog.const_index:
+                return fn + "::" + m.group(4)
         # Type::method::promoted[N]  ->  <impl at ..>::method::promoted[N]
         m = re.match(r"^(.*)::(\w+)::(promoted\[\d+\])$", plain)
         if m:
@@ -443,13 +469,16 @@ class Interp:
             if fn is not None and (fn + "::" + m.group(3)) in self.prog.const_index:
                 return fn + "::" + m.group(3)
             # closures: path::{closure#0}::promoted[..] appear verbatim
-        m = re.match(r"^(.*)::(\w+)$", plain)
+        m = re.match(r"^.*?::<impl (.*?)>::(\w+)$", plain) or re.match(r"^(.*)::(\w+)$", plain)
         if m:
             # associated const: Type::NAME -> <impl at ..>::NAME
             for cand in self.prog.const_index:
                 if cand.endswith(">::" + m.group(2)) and "<impl at" in cand:
                     tag = re.search(r"<(impl at [^>]*)>", cand).group(1)
                     tr, ty = self.prog.impl_info(tag)
+                    if ty is None or "$" in ty:
+                        hm = re.match(r"^(?:const|static)(?: mut)? .*?: (.*?) = ", self.prog.lines[self.prog.const_index[cand]])
+                        ty = hm.group(1) if hm else None
                     if ty and _last(ty) == _last(m.group(1)):
                         return cand
         return None
@@ -548,9 +577,19 @@ class Interp:
             ty = self.int_ty(fr, b_op)
         if opname == "Offset":
             raise Unsupported("pointer offset")
+        if isinstance(a, float) or isinstance(b, float):
+            import operator as _o
+            return {"Add": _o.add, "Sub": _o.sub, "Mul": _o.mul, "Div": _o.truediv, "Lt": _o.lt, "Le": _o.le,
+                    "Gt": _o.gt, "Ge": _o.ge, "Eq": _o.eq, "Ne": _o.ne}[opname](a, b)
         if isinstance(a, Enum) and isinstance(b, Enum):   # fieldless enum compare (derive PartialEq lowers to ints, rare)
             a, b = a.idx, b.idx
         w = int_width(ty)
+        if w is None and dest_ty:
+            d = dest_ty.strip()
+            if d.startswith("(") and d.endswith(", bool)"):
+                d = d[1:-7]
+            if int_width(d) and d != "bool":
+                ty, w = d, int_width(d)
         if w is None:
             if isinstance(a, (Ref, SliceRef)) or isinstance(b, (Ref, SliceRef)):
                 if opname in ("Eq", "Ne"):
@@ -759,6 +798,9 @@ class Interp:
         """crate function for a printed callee path (generics stripped), or None"""
         if plain in self.prog.fn_index:
             return plain
+        m = re.match(r"^(.*?)::<impl (.*?)>::(\w+)$", plain)
+        if m and not m.group(2).startswith("at "):
+            return self.prog.resolve_method(m.group(1), m.group(2), m.group(3), None)
         if "::" in plain and not plain.startswith("<"):
             ty, method = plain.rsplit("::", 1)
             if method.startswith("{closure"):
